@@ -634,13 +634,13 @@ def make_transforms(probe):
         "inc": lambda v: v + 1,
         "neg": lambda v: -v,
         "addz": lambda v: v + "z",
-        "rev": lambda v: list(reversed(v)),
-        "app9": lambda v: list(v) + [9],
+        "rev": lambda v: list(reversed(copy.deepcopy(v))),
+        "app9": lambda v: list(copy.deepcopy(v)) + [9],
         "setadd9": lambda v: set(v) | {9},
         "setaddz": lambda v: set(v) | {"z"},
-        "dictadd": lambda v: {**v, "n": 1},
-        "dictcopy": lambda v: dict(v),
-        "listcopy": lambda v: list(v),
+        "dictadd": lambda v: {**copy.deepcopy(v), "n": 1},
+        "dictcopy": lambda v: dict(copy.deepcopy(v)),
+        "listcopy": lambda v: list(copy.deepcopy(v)),
         "leaf_bump": _bump,
         "kleaf_bump": _bump,
         "ident_copy": lambda v: copy.deepcopy(v),
@@ -784,6 +784,8 @@ def gen_attr(tk, rng, profile):
             a.init = False
     if profile.get("dnc_attrs", True) and t.kind != "scalar" and rng.random() < 0.12:
         a.do_not_copy = True
+        if a.default is not None and a.default[0] in ("field", "field_factory"):
+            a.default[0] = "factory"  # dataclasses.field cannot carry do_not_copy
     return a
 
 
